@@ -234,6 +234,8 @@ type Net struct {
 	// Tips are the harness's notion of the best head per level (production: the
 	// hierarchical coordinator picks them); advanced by every successful append.
 	Tips [3]*types.WorkObject
+	// StaleTemplates counts sealed headers the node refused with ErrBodyNotFound (template replaced meanwhile)
+	StaleTemplates int
 }
 
 func (n *Net) Prime() *Node  { return n.Nodes[0] }
@@ -496,6 +498,8 @@ func (n *Net) Block(lvl int, h common.Hash) *types.WorkObject {
 	return n.Nodes[lvl].Core.GetBlockByHash(h)
 }
 
+// (StaleTemplates, a field of Net, counts sealed headers the node refused with ErrBodyNotFound; see Mine.)
+
 // Mined is the record of one mining step (the event log monitors run over).
 type Mined struct {
 	Order     int
@@ -682,18 +686,29 @@ func (n *Net) Mine(o MineOpts) (*Mined, error) {
 	if o.Heads != nil {
 		heads = *o.Heads
 	}
-	wo, err := n.BuildPending(heads, o.Fill)
-	if err != nil {
-		return nil, err
+	for attempt := 0; ; attempt++ {
+		wo, err := n.BuildPending(heads, o.Fill)
+		if err != nil {
+			return nil, err
+		}
+		if wo == nil {
+			return nil, errors.New("nil pending header")
+		}
+		order, err := n.Seal(wo, o.WantOrder, o.MaxOrder)
+		if err != nil {
+			return nil, err
+		}
+		m, err := n.submit(wo, order, o.NoAppend)
+		// The node answers a sealed header whose template it no longer holds (the worker's background
+		// loop replaced the pending body while the nonce was being ground - frequent only in slow,
+		// race-instrumented builds) with ErrBodyNotFound and asks for a fresh template: do what a miner
+		// does and fetch one. Anything else, or a node that keeps losing its templates, is reported.
+		if err != nil && errors.Is(err, core.ErrBodyNotFound) && attempt < 4 {
+			n.StaleTemplates++
+			continue
+		}
+		return m, err
 	}
-	if wo == nil {
-		return nil, errors.New("nil pending header")
-	}
-	order, err := n.Seal(wo, o.WantOrder, o.MaxOrder)
-	if err != nil {
-		return nil, err
-	}
-	return n.submit(wo, order, o.NoAppend)
 }
 
 // Submit hands an already sealed pending header to the hierarchy.
